@@ -35,6 +35,10 @@ pub struct PoolCase {
     pub timeout_zero: bool,
     pub queries: Vec<PoolQuery>,
     pub events: Vec<PoolEv>,
+    /// > 0: third regime - ONE query (the first), a query timeout of this many milliseconds of REAL
+    /// time (the pool reads std::time::Instant), silent peers, and a measured wait of > 1.5 x timeout
+    #[serde(default)]
+    pub real_timeout_ms: u8,
 }
 
 #[derive(Clone, Debug, PartialEq, Eq, Hash, Serialize, Deserialize)]
@@ -52,7 +56,72 @@ fn resolve(target: &Id, u: &UId) -> Id {
     }
 }
 
+/// Third regime: the query timeout really elapses. One-directional: only after a MEASURED wait of
+/// more than 1.5 x timeout since the first poll is the query required to have been cut off.
+fn run_pool_real_timeout(c: &PoolCase) -> CaseReport {
+    let mut rep = CaseReport::default();
+    let timeout = Duration::from_millis(c.real_timeout_ms.max(5) as u64);
+    let mut pool: VQueryPool = VQueryPool::new(timeout);
+    let q = &c.queries[0];
+    let cfg = VQueryConfig { parallelism: q.parallelism as usize, num_results: q.num_results as usize, peer_timeout: Duration::from_secs(3600) };
+    let mut peers: Vec<Id> = q.peers.iter().map(|u| resolve(&c.target, u)).collect();
+    peers.sort_by_key(|p| ids::xor(p, &c.target));
+    peers.dedup();
+    match q.predicate {
+        None => pool_add_findnode(&mut pool, cfg, ids::node_id(&c.target), peers.iter().map(ids::node_id).collect()),
+        Some(p) => pool_add_predicate(&mut pool, cfg, ids::node_id(&c.target), peers.iter().map(|i| (ids::node_id(i), p.eval(i[31] as u32))).collect(), move |r: &VRecord| p.eval(r.value)),
+    };
+    rep.class("pool-timeout-real");
+    rep.class(format!("pool-timeout-real/parallelism-{}", if q.parallelism == 0 { "0" } else { ">0" }));
+    let t_first = std::time::Instant::now();
+    // hand out peers until the query has nothing more to hand out; nobody ever answers
+    let mut in_flight = 0usize;
+    let mut ended = false;
+    for _ in 0..64 {
+        match pool.poll() {
+            QueryPoolState::Waiting(Some(_)) => in_flight += 1,
+            QueryPoolState::Finished(_) | QueryPoolState::Timeout(_) | QueryPoolState::Idle => {
+                ended = true;
+                break;
+            }
+            QueryPoolState::Waiting(None) => break,
+        }
+    }
+    if in_flight > (q.parallelism as usize).max(q.num_results as usize).max(1) * 4 {
+        rep.fail("T2/parallelism-exceeded", format!("{in_flight} requests handed out without any answer, parallelism {}", q.parallelism));
+        return rep;
+    }
+    if ended {
+        return rep;
+    }
+    while t_first.elapsed() <= timeout * 3 / 2 + Duration::from_millis(2) {
+        std::thread::sleep(Duration::from_millis(2));
+    }
+    rep.nontrivial = true;
+    match pool.poll() {
+        QueryPoolState::Waiting(None) => {
+            rep.fail(
+                "T5/query-timeout-not-enforced",
+                format!(
+                    "a query (parallelism {}, {} candidates, {in_flight} requests in flight to silent peers) is still waiting {:?} after its first poll; the query timeout is {timeout:?}",
+                    q.parallelism,
+                    peers.len(),
+                    t_first.elapsed()
+                ),
+            );
+        }
+        QueryPoolState::Waiting(Some(_)) => {
+            rep.class("pool-timeout-real/peer-handed-out-after-the-wait");
+        }
+        _ => {}
+    }
+    rep
+}
+
 pub fn run_pool_case(c: &PoolCase) -> CaseReport {
+    if c.real_timeout_ms > 0 && !c.queries.is_empty() {
+        return run_pool_real_timeout(c);
+    }
     let mut rep = CaseReport::default();
     let mut pool: VQueryPool = VQueryPool::new(if c.timeout_zero { Duration::from_secs(0) } else { Duration::from_secs(3600) });
     let mut ids_: Vec<discv5::verif::QueryId> = Vec::new();
@@ -269,8 +338,21 @@ fn pool_strategy() -> BoxedStrategy<PoolCase> {
         3 => (any::<u16>(), proptest::collection::vec(uid_strategy(), 0..4)).prop_map(|(sel, returned)| PoolEv::Success { sel, returned }),
         2 => any::<u16>().prop_map(|sel| PoolEv::Failure { sel }),
     ];
-    (any::<[u8; 32]>(), any::<bool>(), proptest::collection::vec(q, 1..4), proptest::collection::vec(ev, 0..60))
-        .prop_map(|(target, timeout_zero, queries, events)| PoolCase { target, timeout_zero, queries, events })
+    (any::<[u8; 32]>(), any::<bool>(), proptest::collection::vec(q, 1..4), proptest::collection::vec(ev, 0..60), prop_oneof![6 => Just(false), 1 => Just(true)], prop_oneof![60 => Just(0u8), 1 => 8u8..25])
+        .prop_map(|(target, timeout_zero, mut queries, events, zero_parallelism, real_timeout_ms)| {
+            if real_timeout_ms > 0 {
+                if zero_parallelism {
+                    queries[0].parallelism = 0;
+                }
+                return PoolCase { target, timeout_zero: false, queries, events: vec![], real_timeout_ms };
+            }
+            // a query configured with parallelism 0 can only end through the query timeout: generated in
+            // the timeout-0 regime only (there it must be cut off at the first poll)
+            if zero_parallelism && timeout_zero {
+                queries[0].parallelism = 0;
+            }
+            PoolCase { target, timeout_zero, queries, events, real_timeout_ms: 0 }
+        })
         .boxed()
 }
 
@@ -300,7 +382,7 @@ impl Property for C09 {
         }
     }
     fn rule() -> String {
-        "event histories (<=80 quick / <=160 thorough events: next, bursts of next, success with 0..7 returned peers (new/duplicate/closer/farther/responder/target), failure, clock advance by 1 s / timeout-1ns / timeout / 3 timeouts) against the real FindNodeQuery and PredicateQuery with an explicit clock, universe of <=40 ids crafted relative to the target (target itself, log2 classes 1..4, 250..256, random), parallelism 1..8, num_results 1..20, initial lists sorted (as the only caller supplies them) or unsorted; peers addressed by ledger class (in flight, timed out, answered, never contacted, unknown). Every history ends with a drain (all outstanding requests get an outcome, new ones immediately; failure or empty-success variant). Ledger invariants T1-T4 after every next(). One case in six drives the real QueryPool (1..3 queries, timeout 0 or 1h) and checks T5 (returned exactly once, gone afterwards, idle when empty, cut off at timeout 0). Non-trivial (machine) = a success delivered after the peer timeout or a closer unknown peer learnt while at capacity; (pool) = >=2 queries or a success.".into()
+        "event histories (<=80 quick / <=160 thorough events: next, bursts of next, success with 0..7 returned peers (new/duplicate/closer/farther/responder/target), failure, clock advance by 1 s / timeout-1ns / timeout / 3 timeouts) against the real FindNodeQuery and PredicateQuery with an explicit clock, universe of <=40 ids crafted relative to the target (target itself, log2 classes 1..4, 250..256, random), parallelism 1..8, num_results 1..20, initial lists sorted (as the only caller supplies them) or unsorted; peers addressed by ledger class (in flight, timed out, answered, never contacted, unknown). Every history ends with a drain (all outstanding requests get an outcome, new ones immediately; failure or empty-success variant). Ledger invariants T1-T4 after every next(). One case in six drives the real QueryPool (1..3 queries, timeout 0 or 1h) and checks T5 (returned exactly once, gone afterwards, idle when empty, cut off at timeout 0); one pool case in 61 uses a query timeout of 8..24 ms of REAL time with one query (parallelism 0..4) whose peers stay silent: after a measured wait of more than 1.5 x timeout since the first poll the query must have been cut off. Non-trivial (machine) = a success delivered after the peer timeout or a closer unknown peer learnt while at capacity; (pool) = >=2 queries or a success.".into()
     }
     fn assumptions() -> Vec<String> {
         vec![
